@@ -34,7 +34,10 @@ def one_case(col: Collector, rng, index: int, prop: str, max_tasks: int, emphasi
     gpu_mix = (not wide) and rng.random() < 0.2
     if gpu_mix and shape is None:
         shape = rng.choice(["diamond", "diamond", "wide", "layered", "triangular"])
-    js = gen_jobspec(rng, max_tasks=max_tasks if wide else rng.choice([4, 8, max_tasks]), shape=shape, allow_none=allow_none)
+    # very wide class (rare, expensive): 64-80 workers idle and more than 64 tasks computable in one round
+    xwide = wide and rng.random() < 0.15
+    js = gen_jobspec(rng, max_tasks=max_tasks if wide else rng.choice([4, 8, max_tasks]), shape="diamond" if xwide else shape, allow_none=allow_none,
+                     n_tasks=rng.randint(72, 100) if xwide else None, big_outputs=not xwide)
     if gpu_mix:
         for t in js["tasks"].values():
             t["needs_gpu"] = rng.random() < 0.45
@@ -53,6 +56,9 @@ def one_case(col: Collector, rng, index: int, prop: str, max_tasks: int, emphasi
     if wide:
         env = {f"h{h}": [(f"w{i}", 1 if i == 0 else 0) for i in range(rng.randint(6, 8))] for h in range(rng.randint(3, 4))}
         col.count("runs_wide_class")
+        if xwide:
+            env = {f"h{h}": [(f"w{i}", 1 if i == 0 else 0) for i in range(16)] for h in range(rng.randint(4, 5))}
+            col.count("runs_very_wide_class")
     policy = rng.choice(sc.POLICIES)
     out = sc.run_case(js, env, rng, policy, reorder=reorder)
     b = out["bridge"]
